@@ -548,6 +548,17 @@ func genC19(c *Ctx) {
 						c.add("blobunmarshal", hx(enc))
 						_, err := share.UnmarshalBlob(enc)
 						c.check((err == nil) == want, "UnmarshalBlob", "does not accept exactly the valid combinations", wit)
+						// through the wire of a blob TRANSACTION, as a later blob behind a valid one with the SAME
+						// namespace id (whatever is remembered from the previous blob must not validate this one)
+						{
+							validFirst := append(pbBytes(1, goodID), pbBytes(2, []byte{9})...)
+							btxEnc := append(pbBytes(1, []byte("inner tx")), pbBytes(2, validFirst)...)
+							btxEnc = append(btxEnc, pbBytes(2, enc)...)
+							btxEnc = append(btxEnc, pbBytes(3, []byte("BLOB"))...)
+							c.add("btxunmarshal", hx(btxEnc))
+							_, _, berr := tx.UnmarshalBlobTx(btxEnc)
+							c.check((berr == nil) == want, "UnmarshalBlobTx", "a later blob of a blob transaction is not accepted exactly when it is a valid combination", wit)
+						}
 						// JSON constructor (Go side only)
 						jb := jsonBlob{}
 						if id.id != nil {
